@@ -436,9 +436,16 @@ impl Graph {
             return Ok(graph);
         };
         if graph.dfa.has_empty() {
-            for (leaf_id, leaf) in graph.leaves.iter().enumerate() {
-                if leaf.pattern.hir().properties().minimum_len() == Some(0) {
-                    graph.errors.push(GraphError::EmptyMatch(LeafId(leaf_id)));
+            // `minimum_len` is `None` for a pattern like `[a&&b]*`, which can only match the
+            // empty string: blame those if no pattern has a minimum length of zero.
+            for min_len in [Some(0), None] {
+                for (leaf_id, leaf) in graph.leaves.iter().enumerate() {
+                    if leaf.pattern.hir().properties().minimum_len() == min_len {
+                        graph.errors.push(GraphError::EmptyMatch(LeafId(leaf_id)));
+                    }
+                }
+                if !graph.errors.is_empty() {
+                    break;
                 }
             }
             #[cfg(logos_verif)]
